@@ -31,7 +31,8 @@ THEOREMS['C17'] = ['FB.Conc.P3.C17_no_append_after_close', 'FB.Conc.P3.C17_compl
                    'FB.Conc.P3.straggler_counterexample']
 THEOREMS['C08'] += ['FB.Conc.P1.claim_unique', 'FB.Conc.P1.executed_at_most_once']
 THEOREMS['C04'] = ['FB.C04_exists_iff', 'FB.C04_not_both', 'FB.C04_listDir_iff', 'FB.C04_listDir_errors',
-                   'FB.C04_hidden', 'FB.C04_visible_elsewhere']
+                   'FB.C04_hidden', 'FB.C04_visible_elsewhere', 'FB.BuildDirs.run_inv', 'FB.BuildDirs.handleDirExists_inv',
+                   'FB.BuildDirs.started_inv', 'FB.BuildDirs.error_inv', 'FB.BuildDirs.isRemoved_inv']
 THEOREMS['C02'] = ['FB.C02_rolledBack_frame', 'FB.C02_rolledBack_files', 'FB.C02_spec_build_raises']
 THEOREMS['C14'] = ['FB.C14_fault_surfaces', 'FB.C02_spec_build_raises', 'FB.C02_rolledBack_files']
 THEOREMS['C03'] = ['FB.C03_impl_build', 'FB.C03_impl_buildGo', 'FB.C03_impl_run_frame', 'FB.replayOp_frame', 'FB.C03_run_frame',
@@ -291,9 +292,31 @@ def check_C02(tier):
 def check_C03(tier):
     return run_hist_prop('C03', tier, 3, 700, 40000, p_fail=0.3, p_clean=0.2, families=gen.SCENARIOS + [gen.scen_cache_subdir])
 def check_C04(tier):
-    # query-dense programs, plus call-dense ones (what a later build sees depends on what earlier ones recorded)
-    return run_hist_prop('C04', tier, 4, 500, 20000, prof=QUERY_DENSE,
-                         extra_cases=lambda t, ds: random_cases(t, 400, 15000, 104, dirsize=ds))
+    # query-dense programs, plus call-dense ones (what a later build sees depends on what earlier ones recorded),
+    # plus the BuildDirs data structure on its own, state by state
+    rep = core.Report('C04', tier)
+    gate = core.proof_gate(THEOREMS['C04'], tier)
+    ds = measure()
+    from . import bdcheck
+    probs = bdcheck.run(tier, rep)
+    rep.count('correspondence_disagreements_builddirs', len(probs))
+    cases = corpus_cases(ds)
+    cases += gen.gen_scenario_cases(core.seed() * 31 + 4, budget(tier, 25, 600), ds, gen.SCENARIOS)
+    cases += random_cases(tier, 400, 15000, 104, dirsize=ds)
+    cases += random_cases(tier, 500, 20000, 4, prof=QUERY_DENSE, dirsize=ds)
+    for i, c in enumerate(cases):
+        if not str(c.get('seed', '')).startswith('corpus:') and i % 4 == 0:
+            c['spell'] = core.seed() * 7919 + i
+    explore('C04', tier, rep, cases)
+    if probs and not rep.violations:
+        p = probs[0]
+        rep.violation('builddirs_tie', {'property': 'C04', 'kind': 'correspondence-broken',
+                                        'no_longer_checks': 'FB.BuildDirs (run_inv) describes build_dirs.py',
+                                        'case': p['case'], 'real': p['real'], 'model': p['model']},
+                      note='build_dirs.py and FB.BuildDirs differ after %s' % json.dumps(p['case']['cmds'][-1]), no_input=True)
+    return finish('C04', rep, gate)
+
+
 def datastructure_tie(prop, tier, rep, salt=0):
     """created_files.py against FB.CreatedFiles, state by state (a disagreement is a broken correspondence; the
     history exploration that follows is the search for a failing input)"""
